@@ -49,6 +49,7 @@ type Executor struct {
 	Oracles  []Oracle
 	Viol     []*Violation
 	Target   string // property whose violation ends the run (fatal ones always do)
+	Known    map[string]bool // signatures listed as open known findings: reported, but they do not end the run
 	seenSig  map[string]bool
 	// hook for oracles that need to look at handler-level events (C17)
 	OnProposal func(h int64, round int32, proposer *Node, req *abci.RequestPrepareProposal, txs [][]byte, honest bool)
@@ -79,7 +80,7 @@ func (e *Executor) report(v ...*Violation) {
 // continuing makes no sense (halt, divergence, handler failure).
 func (e *Executor) Stop() bool {
 	for _, v := range e.Viol {
-		if v.Property == e.Target || e.Target == "" {
+		if (v.Property == e.Target || e.Target == "") && !e.Known[v.Signature()] {
 			return true
 		}
 		switch v.Oracle {
